@@ -404,12 +404,44 @@ func c14Renderers() []c14Renderer {
 			b, pn := x.alt.Disasm()
 			return string(b), pn
 		}},
+		// append style: the buffer handed in already holds earlier lines (no spare capacity / a little)
+		{"cpu65c816.DisassembleCurrentPC(buffer holding earlier lines)", 0, true, func(x *cpuCtx) (string, interface{}) {
+			return c14Into(x.pri.DisasmInto)
+		}},
+		{"cpualt.DisassembleCurrentPC(buffer holding earlier lines)", 1, true, func(x *cpuCtx) (string, interface{}) {
+			return c14Into(x.alt.DisasmInto)
+		}},
 		{"cpualt.Disassemble", 1, false, func(x *cpuCtx) (s string, pn interface{}) {
 			defer func() { pn = recover() }()
 			s = x.alt.C.Disassemble(x.alt.C.PC)
 			return
 		}},
 	}
+}
+
+var c14Earlier = []byte(strings.Repeat("00:8000 ea          nop                      A:0000 X:0000 Y:0000\n", 3))
+
+// c14Into calls an append-style renderer twice, with a buffer that is exactly full and with one that has 10
+// spare bytes; the earlier lines must still be there, followed by the same new line.
+func c14Into(f func([]byte) ([]byte, interface{})) (string, interface{}) {
+	var line string
+	for i, spare := range []int{0, 10} {
+		buf := make([]byte, len(c14Earlier), len(c14Earlier)+spare)
+		copy(buf, c14Earlier)
+		o, pn := f(buf)
+		if pn != nil {
+			return "", pn
+		}
+		if len(o) < len(c14Earlier) || !bytes.Equal(o[:len(c14Earlier)], c14Earlier) {
+			return "", fmt.Sprintf("the %d bytes of earlier lines in the buffer handed in (spare capacity %d) were not preserved: result starts %q", len(c14Earlier), spare, o[:min(len(o), 40)])
+		}
+		l := string(o[len(c14Earlier):])
+		if i > 0 && l != line {
+			return "", fmt.Sprintf("line appended to a full buffer %q, to a buffer with spare room %q", line, l)
+		}
+		line = l
+	}
+	return line, nil
 }
 
 func c14StepCheck(x *cpuCtx, c *cpuCase) (sig, what string) {
